@@ -224,6 +224,10 @@ func (c *mqCtl) check() *finding {
 			}
 		}
 		b := len(q.accepted) - len(q.entered)
+		if b > 0 && len(q.entered) == q.returned {
+			// quiescent, messages buffered, and the handler of this queue is not running
+			return violation("mq-isolation-undelivered", "queue %d of thread %s accepted %v, its handler saw %v and is not running although the multiqueue is quiescent (another thread's handler is stuck)", q.id, q.t, q.accepted, q.entered)
+		}
 		if b > c.qsize {
 			return violation("mq-queue-over-bound", "queue %d of thread %s buffers %d messages, bound %d", q.id, q.t, b, c.qsize)
 		}
